@@ -91,7 +91,8 @@ class Server:
     expired; in both cases the process is restarted so the caller can go on.
     """
 
-    def __init__(self, timeout=20.0, stack_mb=256, cwd=None, env=None):
+    def __init__(self, timeout=20.0, stack_mb=256, cwd=None, env=None, mem_gb=6):
+        self.mem_gb = mem_gb
         self.timeout = timeout
         self.stack_mb = stack_mb
         self.cwd = cwd
@@ -105,8 +106,15 @@ class Server:
         env = {"PATH": os.environ.get("PATH", "/usr/bin:/bin"), "HOME": scratch_home(), "RUST_BACKTRACE": "0",
                "LC_ALL": "C.UTF-8", "UCGMC_STACK_MB": str(self.stack_mb)}
         env.update(self.extra_env)
+        mem = self.mem_gb << 30
+
+        def limits():
+            import resource
+            resource.setrlimit(resource.RLIMIT_AS, (mem, mem))
+            resource.setrlimit(resource.RLIMIT_CORE, (0, 0))
+
         self.p = subprocess.Popen([UCGMC, "serve"], stdin=subprocess.PIPE, stdout=subprocess.PIPE,
-                                  stderr=subprocess.DEVNULL, cwd=self.cwd, env=env, bufsize=0)
+                                  stderr=subprocess.DEVNULL, cwd=self.cwd, env=env, bufsize=0, preexec_fn=limits)
         self.buf = b""
         os.set_blocking(self.p.stdout.fileno(), False)
         os.set_blocking(self.p.stdin.fileno(), False)
